@@ -333,6 +333,27 @@ CLAIMS = {
                      'abstract evaluation (decision table) + who-may-call '
                      '(ast)',
     },
+    'C20': {
+        'text': 'Decides the permission and release structure of '
+                'forwarding: the four server-side forwarding entry points '
+                'reach the application / listener only past both permission '
+                'tests and the application\'s consent (shared rule with '
+                'C05.R5); the four client-side forwarded opens are accepted '
+                'only with a registered listener / enabled feature; every '
+                'listener registry (local, remote, dynamic, agent, X11) is '
+                'closed and emptied on the owning cleanup path, cancel '
+                'requests pop then close; SSHForwarder.eof_received / close '
+                '/ data_received and SSHLocalForwarder._forward are '
+                'evaluated as complete decision tables (EOF always '
+                'recorded and forwarded iff a peer exists, transport kept '
+                'open iff the peer has not seen EOF; close closes both ends '
+                'with the back-reference cleared first; early data then '
+                'early EOF replayed once; open failure closes the socket).',
+        'note': TB + 'not decided: byte-faithful relay under every '
+                'interleaving; SOCKS parser robustness.',
+        'technique': 'CFG guard-dominance + registry/release table + finite '
+                     'abstract evaluation (decision tables) (ast)',
+    },
 }
 
 PENDING = 'check not built yet in this session (planned, see DESIGN.md section 5)'
